@@ -3,7 +3,8 @@ from common import *  # noqa: F401,F403
 
 RULE = ("random curves (Bezier, multi-span, repeated knots, rational; degree 0..3, t in 1..3): degree_increase(t) and the degree setter; "
         "elevate-then-reduce round trips; reduction of generic curves (refused with the default tolerance, forced with tolerance=None); "
-        "invalid arguments.  Non-trivial: an interior knot or degree >= 2; distinct = distinct (U,P,W,t,mode).")
+        "invalid arguments.  Non-trivial: an interior knot or degree >= 2; distinct = distinct (U,P,W,t,mode)."
+        " Also: reductions by two (partly reducible curves, vanishing double knots), multi-span elevation to final degree 7..10, float twin first.")
 EXPLANATION = ("L2: state after elevation / reduction vs the model (split + Bezier elevation + least-squares removal, exact); L3: `rf.eq` "
                "before/after, knot pattern (every distinct knot +t), atomic refusal, interpolation at the remaining knots for forced reduction.")
 ASSUMPTIONS = ["weights positive"]
